@@ -294,9 +294,6 @@ func c20Run(c *Ctx) {
 			var sink strings.Builder
 			p.WriteHelp(&sink)
 		})
-		for cm := p.Command; cm != nil; cm = cm.Active {
-			defer func(cm *flags.Command) {}(cm)
-		}
 		p.Active = nil
 		if cs.Depth == 1 {
 			parent.Active = nil
